@@ -8,6 +8,7 @@ import Usid.Driver.MainCheck
 import Usid.Driver.Anc
 import Usid.Driver.Dims
 import Usid.Driver.Reshape
+import Usid.Driver.Slice
 /-! Line-protocol driver over the hand-written models: one JSON request per line on stdin,
     one JSON response per line on stdout. -/
 namespace Usid.Driver
@@ -24,7 +25,8 @@ def handlers : List (String × (Json → R Json)) := [
   ("main.check", hMainCheck),
   ("anc.build", hAncBuild), ("anc.make", hAncMake), ("anc.write", hAncWrite),
   ("dims.sort", hDimsSort), ("uv.get", hUvGet), ("uv.rebuild", hUvRebuild),
-  ("rs.to_nd", hRsToNd), ("rs.wrapper", hRsWrapper), ("rs.from_nd", hRsFromNd)
+  ("rs.to_nd", hRsToNd), ("rs.wrapper", hRsWrapper), ("rs.from_nd", hRsFromNd),
+  ("slice.nd", hSliceNd), ("slice.2d", hSlice2d)
 ]
 
 def respond (tbl : List (String × (Json → R Json))) (line : String) : String :=
